@@ -1928,6 +1928,13 @@ func (in *inliner) processStmt(s ast.Stmt, file *ast.File, depth int) []ast.Stmt
 			}
 		}
 	}
+	// `switch { case !pred(x): … case …: … default: … }` with an expandable call in a case expression:
+	// a tagless switch without fallthrough or break is an if/else-if chain (the cases are tried in order)
+	if x, ok := s.(*ast.SwitchStmt); ok && x.Tag == nil && x.Init == nil {
+		if chain, ok := in.switchToIfChain(x); ok {
+			return in.processStmt(chain, file, depth)
+		}
+	}
 	switch x := s.(type) {
 	case *ast.SwitchStmt:
 		if st, ok := in.dispatchSwitch(x, file, depth, stack); ok {
@@ -2816,3 +2823,99 @@ func recheck(path string, fset *token.FileSet, files []*ast.File, imp map[string
 type importerFunc func(path string) (*types.Package, error)
 
 func (f importerFunc) Import(path string) (*types.Package, error) { return f(path) }
+
+// switchToIfChain rewrites a tagless switch as an if/else-if chain when one of its case expressions
+// contains a call of an expandable helper (otherwise there is nothing to gain) and the rewrite is exact:
+// no fallthrough, and no break that would leave the switch (after the rewrite it would leave an enclosing loop).
+func (in *inliner) switchToIfChain(x *ast.SwitchStmt) (ast.Stmt, bool) {
+	if x.Body == nil || len(x.Body.List) == 0 {
+		return nil, false
+	}
+	gain := false
+	var clauses []*ast.CaseClause
+	var def *ast.CaseClause
+	for _, st := range x.Body.List {
+		cc, ok := st.(*ast.CaseClause)
+		if !ok {
+			return nil, false
+		}
+		if cc.List == nil {
+			def = cc
+		} else {
+			clauses = append(clauses, cc)
+			for _, e := range cc.List {
+				ast.Inspect(e, func(n ast.Node) bool {
+					if ce, ok := n.(*ast.CallExpr); ok && in.targetOf(ce) != nil {
+						gain = true
+					}
+					return true
+				})
+			}
+		}
+		bad := false
+		var walk func(n ast.Node, breakable bool)
+		walk = func(n ast.Node, breakable bool) {
+			ast.Inspect(n, func(m ast.Node) bool {
+				if bad || m == nil {
+					return false
+				}
+				switch y := m.(type) {
+				case *ast.FuncLit:
+					return false
+				case *ast.BranchStmt:
+					if y.Tok == token.FALLTHROUGH || y.Tok == token.GOTO {
+						bad = true
+					}
+					if y.Tok == token.BREAK && (y.Label != nil || !breakable) {
+						bad = true
+					}
+				case *ast.ForStmt, *ast.RangeStmt, *ast.SwitchStmt, *ast.TypeSwitchStmt, *ast.SelectStmt:
+					if m != n {
+						walk2 := m
+						// breaks inside belong to the inner construct
+						ast.Inspect(walk2, func(k ast.Node) bool {
+							if b, ok := k.(*ast.BranchStmt); ok && (b.Tok == token.FALLTHROUGH && false || b.Tok == token.GOTO || (b.Tok == token.BREAK && b.Label != nil)) {
+								bad = true
+							}
+							return !bad
+						})
+						return false
+					}
+				}
+				return true
+			})
+		}
+		for _, b := range cc.Body {
+			walk(b, false)
+		}
+		if bad {
+			return nil, false
+		}
+	}
+	if !gain || len(clauses) == 0 {
+		return nil, false
+	}
+	var tail ast.Stmt
+	if def != nil {
+		tail = &ast.BlockStmt{List: def.Body}
+	}
+	for i := len(clauses) - 1; i >= 0; i-- {
+		cc := clauses[i]
+		var cond ast.Expr
+		for _, e := range cc.List {
+			var pe ast.Expr = &ast.ParenExpr{X: e}
+			if cond == nil {
+				cond = pe
+			} else {
+				cond = &ast.BinaryExpr{X: cond, Op: token.LOR, Y: pe}
+			}
+		}
+		ifs := &ast.IfStmt{Cond: cond, Body: &ast.BlockStmt{List: cc.Body}}
+		if tail != nil {
+			ifs.Else = tail
+		}
+		tail = ifs
+	}
+	in.log = append(in.log, "tagless switch rewritten as an if/else-if chain")
+	return tail, true
+}
